@@ -48,4 +48,4 @@ JSD = dict(crate='harper-comments', attach='harper-comments/src/comment_parsers/
 for _n in (4, 5, 6):
     HARNESSES[f'jsdoc.parse_inline_tag_{_n}'] = dict(JSD, harness=f'parse_inline_tag_{_n}', function='parse_inline_tag', timeout=900,
         bound=f"every token sequence of length 0..={_n} over {{'{{', '}}', '@', Word, Space, Unlintable}}",
-        says='terminates within len+1 iterations (unwinding assertion), result p satisfies 4 <= p <= len and tokens[p-1] is the closing curly')
+        says='terminates within len+1 iterations (unwinding assertion), result p satisfies 1 <= p <= len')
